@@ -85,6 +85,28 @@ def prependErr : GoErr → GoErr
   | .pe id _ => .pe id ""
   | e => e
 
+/-- `NewProtocolExceptionWithErr(err)`: a protocol exception is returned as it is, any other error is wrapped
+    (the wrapped error stays reachable: `named "wrap:<name>"`) -/
+def wrapErr : GoErr → GoErr
+  | .pe id m => .pe id m
+  | .named s => .named ("wrap:" ++ s)
+  | .nil => .named "wrap:nil"
+
+/-- the behaviour of a `bufiox.Reader` interface value: an abstract state `ρ` and its methods. A translated
+    function that calls the interface takes such a record as a parameter; the equivalence theorems instantiate it with
+    the reader model. `readBinary r k` is `ReadBinary(bs)` with `len(bs) = k`: the bytes copied to the front of `bs`,
+    the reported count and the error. -/
+structure ReaderI (ρ : Type) where
+  next : ρ → Int → GM ((Bytes × GoErr) × ρ)
+  peek : ρ → Int → GM ((Bytes × GoErr) × ρ)
+  skip : ρ → Int → GM (GoErr × ρ)
+  readBinary : ρ → Int → GM ((Bytes × Int × GoErr) × ρ)
+  readLen : ρ → Int
+
+/-- `dirtmake.Bytes(n, n)`: a fresh slice of length n with arbitrary contents (zeros here); a negative length panics -/
+def dirtyBytes (n : Int) : GM Bytes :=
+  if n < 0 then .panic "makeslice" else .ok (List.replicate n.toNat 0)
+
 /-! ## slices (cap = len) -/
 
 def len (b : Bytes) : Int := (b.length : Int)
